@@ -702,6 +702,13 @@ func (w *cvxWorld) front(k cvxCfgKey) *cvxFront {
 		rp.Transport = w.upTr
 		hh = rp
 	}
+	if os.Getenv("VERIF_LOG") != "" {
+		inner := hh
+		hh = http.HandlerFunc(func(rw http.ResponseWriter, r *http.Request) {
+			r.Body = &cvxDbgBody{rc: r.Body, id: r.Header.Get(cvxIDHeader)}
+			inner.ServeHTTP(rw, r)
+		})
+	}
 	srv := httptest.NewUnstartedServer(hh)
 	if os.Getenv("VERIF_LOG") == "" {
 		srv.Config.ErrorLog = log.New(io.Discard, "", 0)
@@ -1215,4 +1222,21 @@ func (c *cvxDbgConn) Write(b []byte) (int, error) {
 		log.Printf("WRITEERR %s: %v", c.Conn.LocalAddr(), err)
 	}
 	return n, err
+}
+
+type cvxDbgBody struct {
+	rc io.ReadCloser
+	id string
+}
+
+func (b *cvxDbgBody) Read(p []byte) (int, error) {
+	n, err := b.rc.Read(p)
+	if err != nil && err != io.EOF {
+		log.Printf("BODYREADERR case %s: %v\n%s", b.id, err, debug.Stack())
+	}
+	return n, err
+}
+
+func (b *cvxDbgBody) Close() error {
+	return b.rc.Close()
 }
